@@ -3622,7 +3622,7 @@ class DecVar(Vars):
 
             if len(outputs) > 1:
                 ind_label = self.dro_model.series_scen.index
-                return pd.Series([outputs[edict[key]] for key in edict],
+                return pd.Series([outputs[edict[key]] for key in sorted(edict)],
                                  index=ind_label)
             else:
                 return outputs[0]
@@ -3649,7 +3649,7 @@ class DecVar(Vars):
 
             if len(outputs) > 1:
                 ind_label = self.dro_model.series_scen.index
-                return pd.Series([outputs[edict[key]] for key in edict],
+                return pd.Series([outputs[edict[key]] for key in sorted(edict)],
                                  index=ind_label)
             else:
                 return outputs[0]
